@@ -86,6 +86,10 @@ package crypto
 //@ ensures result.key == kdf(sharedSecret, streamID, initiatorPub, responderPub)
 //@ ensures result.isInitiator == isInitiator
 //@ ensures result.sendNonce == 0 && result.recvNonce == 0
+//@ note C03 agreement (checked against the symbolic DH axioms only, independent of the body): whatever the two private keys and the request id, the key the initiator derives from (own private, responder public) equals the key the responder derives from (own private, initiator public)
+//@ ensures forall a [32]byte: forall b [32]byte: kdf(dh(a, pubOf(b)), streamID, pubOf(a), pubOf(b)) == kdf(dh(b, pubOf(a)), streamID, pubOf(a), pubOf(b))
+//@ note C03 separation (kdf_injective): a derivation that differs in the request id or in either public key gives a different key, whatever its secret
+//@ ensures forall s2 [32]byte: forall i2 uint64: forall a2 [32]byte: forall b2 [32]byte: (i2 != streamID || a2 != initiatorPub || b2 != responderPub) ==> kdf(s2, i2, a2, b2) != result.key
 
 // ---- C28: command signatures (Ed25519 idealised: A3) ----
 
